@@ -20,6 +20,7 @@ import (
 	"runtime/pprof"
 	"sync"
 
+	. "gethverif/harness/hxlib"
 	"github.com/ethereum/go-ethereum/common"
 	"github.com/ethereum/go-ethereum/core"
 	"github.com/ethereum/go-ethereum/core/state"
@@ -29,7 +30,6 @@ import (
 	vmrt "github.com/ethereum/go-ethereum/core/vm/runtime"
 	"github.com/ethereum/go-ethereum/params"
 	"github.com/holiman/uint256"
-	. "gethverif/harness/hxlib"
 )
 
 const stackLimit = 1024 // params.StackLimit
@@ -792,6 +792,20 @@ func execute(cfgsel int, p prog, depth int, sh *shared, mode int, release bool) 
 	}
 	copy(r.logs[:], h.Sum(nil))
 	r.root = db.IntermediateRoot(rules)
+	if os.Getenv("HX_C28_DUMP") != "" {
+		fmt.Fprintf(os.Stderr, "depth %d mode %d root %x\n", depth, mode, r.root[:4])
+		addrs := []common.Address{addrP, addrT0, addrFill, addrDeep, addrDirty, addrEcho, cfg.Origin, cfg.Coinbase, common.BytesToAddress([]byte{4}), common.BytesToAddress([]byte{2})}
+		for k := 1; k <= maxChain; k++ {
+			addrs = append(addrs, trampAddr(k))
+		}
+		for k := 0; k < 6; k++ {
+			fmt.Fprintf(os.Stderr, "  slot %d = %x\n", k, db.GetState(addrP, common.BigToHash(big.NewInt(int64(k)))))
+		}
+		fmt.Fprintf(os.Stderr, "  code %x input %x gas %d\n", p.code, p.input, p.gas)
+		for _, a := range addrs {
+			fmt.Fprintf(os.Stderr, "  %x exist=%v empty=%v nonce=%d bal=%s code=%x sroot=%x\n", a[16:], db.Exist(a), db.Empty(a), db.GetNonce(a), db.GetBalance(a), db.GetCodeHash(a).Bytes()[:4], db.GetStorageRoot(a).Bytes()[:4])
+		}
+	}
 	return r
 }
 
@@ -945,7 +959,9 @@ func runPC(p vm.PrecompiledContract, a common.Address, in []byte, cache *vm.Prec
 	return r
 }
 
-func (a pcOut) eq(b pcOut) bool { return bytes.Equal(a.out, b.out) && a.gas == b.gas && a.errs == b.errs }
+func (a pcOut) eq(b pcOut) bool {
+	return bytes.Equal(a.out, b.out) && a.gas == b.gas && a.errs == b.errs
+}
 
 func runPrecompile(l SL) Result {
 	if len(l) != 4 {
